@@ -484,6 +484,24 @@ func c18R2(c *Ctx, r *Report) {
 	if !okHdr {
 		problems = append(problems, "the record's type is not set to SIG")
 	}
+	// the SIG that is packed (hashed and sent) carries no signature yet: Signature = "" is stored before PackRR,
+	// whatever an earlier use of the same SIG value left in the field
+	{
+		cleared := false
+		packs := callsIn(fn, "PackRR")
+		for _, st := range storesToField(fn, "RRSIG", "Signature") {
+			if k, ok := st.Val.(*ssa.Const); ok && k.Value != nil && k.Value.ExactString() == `""` {
+				for _, pk := range packs {
+					if precedes(st, pk.(ssa.Instruction)) {
+						cleared = true
+					}
+				}
+			}
+		}
+		if !cleared {
+			problems = append(problems, "rr.Signature is not cleared before the SIG is packed: a SIG value that signed before is packed with its old signature, and the new message never verifies")
+		}
+	}
 	r.check(len(problems) == 0, "C18.R2.sign-framing", "SIG.Sign:header", c.pos(fn.Pos()), "root owner, SIG, ANY, TTL 0", "%s", strings.Join(problems, "; "))
 }
 
